@@ -288,6 +288,11 @@ func (e *Engine) verifyFunction(fn *ssa.Function, sweep bool) (err error) {
 	}
 	fx.findLoops()
 	fx.scanMods(fn, 0, map[*ssa.Function]bool{})
+	if fx.contract != nil {
+		for _, gs := range fx.contract.GhostSets {
+			fx.modKeys["ghost:"+gs.Ghost] = true
+		}
+	}
 	x := &Exec{eng: e, fx: fx}
 	defer func() {
 		if r := recover(); r != nil {
@@ -493,6 +498,7 @@ func (x *Exec) checkPost(r Ret) {
 		names["result"] = r.vals[0]
 	}
 	sc := x.specCtx(st, st.heap, st.old, names)
+	x.applyGhostSets(st, c, sc)
 	k := 0
 	for _, en := range c.Ensures {
 		if strings.HasPrefix(en.Tag, "assumed") {
